@@ -594,7 +594,8 @@ class TLSConnection(TLSRecordLayer):
         # If the server elected to resume the session, it is handled here.
         for result in self._clientResume(session, serverHello,
                         clientHello.random,
-                        nextProto, settings):
+                        nextProto, settings,
+                        clientHello.session_id):
             if result in (0, 1): yield result
             else: break
 
@@ -858,6 +859,10 @@ class TLSConnection(TLSRecordLayer):
             for cached_ticket in session.tls_1_0_tickets:
                 extensions.append(SessionTicketExtension().create(
                     cached_ticket.ticket))
+                # RFC 5077 section 3.4: send a session ID so that we can tell
+                # from the server's echo whether it accepted the ticket
+                if not session_id:
+                    session_id = getRandomBytes(32)
                 break
             else:
                 # or just advertise that we support session resumption
@@ -1791,11 +1796,14 @@ class TLSConnection(TLSRecordLayer):
         return None
 
     def _clientResume(self, session, serverHello, clientRandom,
-                      nextProto, settings):
+                      nextProto, settings, offered_session_id=None):
 
+        # the server resumed the session (be it from its cache or from
+        # a session ticket) only if it echoed the session ID we have sent
         if session and ((session.sessionID and \
             serverHello.session_id == session.sessionID) or
-            session.tls_1_0_tickets):
+            (session.tls_1_0_tickets and offered_session_id and
+             serverHello.session_id == offered_session_id)):
 
             if serverHello.cipher_suite != session.cipherSuite:
                 for result in self._sendError(\
